@@ -1247,4 +1247,257 @@ theorem jrun_obs (as : List JAct) (s : JSt) (h : JInv s) :
           rw [h1, hc]; rfl
     · exact ih _ (JInv.step s h a) o h1
 
+/-! ## Completeness of an assignment round, the embedded splitter, the httpapi cursor -/
+
+theorem assignAvail_proj (s : Sp) :
+    (assignAvail s).1.tr.known = s.tr.known ∧ (assignAvail s).1.done = s.done ∧ (assignAvail s).1.stream = s.stream := by
+  unfold Splits.assignAvail
+  by_cases he : (available s.tr).isEmpty = true <;> simp [he, trackAssigned]
+
+/-- after `assignShards(AvailableSplits())` nothing is available any more -/
+theorem available_after_assign (s : Sp) : available (assignAvail s).1.tr = [] := by
+  unfold Splits.assignAvail
+  by_cases he : (available s.tr).isEmpty = true
+  · simp only [he, if_true]; exact List.isEmpty_iff.mp he
+  · simp only [he]
+    apply List.eq_nil_iff_forall_not_mem.mpr
+    intro sh hs
+    have h1 := (mem_available _ sh).mp hs
+    have h2 : sh ∈ available s.tr := by
+      apply (mem_available _ sh).mpr
+      refine ⟨h1.1, ?_, h1.2.2⟩
+      intro hm
+      exact h1.2.1 (List.mem_append_right _ hm)
+    exact h1.2.1 (List.mem_append_left _ (List.mem_map_of_mem h2))
+
+/-- a discovery followed by an assignment round leaves no shard of the stream behind: each one is finished, handed
+out, or waits for a parent that the tracker still tracks -/
+theorem round_complete (s : Sp) (h : Inv s) (ht : s.tainted = false) :
+    let s' := (assignAvail (discover s)).1
+    ∀ (i : Nat) (sh : Shard), s'.stream[i]? = some sh →
+      i ∈ s'.done ∨ i ∈ s'.log ∨ ∃ p ∈ sh.parents, knownId s'.tr.known p = true := by
+  intro s' i sh hi
+  have h1 : Inv (discover s) := Inv.discover s h
+  have h2 : Inv s' := Inv.assignAvail _ h1
+  obtain ⟨ek, ed, es⟩ := assignAvail_proj (discover s)
+  have hi0 : s.stream[i]? = some sh := by
+    have : s'.stream = s.stream := es
+    rw [this] at hi; exact hi
+  have hil := lt_length_of_getElem? _ _ _ hi0
+  have hkd : knownId (discover s).tr.known i = true ∨ i ∈ s.done := by
+    by_cases hn : i < s.tr.next
+    · rcases h.Q ht i hn with a | a
+      · exact Or.inl ((knownId_addSplits _ _ _).mpr (Or.inl a))
+      · exact Or.inr a
+    · exact Or.inl ((knownId_addSplits _ _ _).mpr (Or.inr (drop_has s _ i (by omega) hil h)))
+  rcases hkd with hk | hd
+  · obtain ⟨t, ht', e⟩ := (knownId_iff _ _).mp hk
+    have hts : t = sh := by
+      have := h1.K1 t ht'
+      rw [e] at this
+      have hi1 : (discover s).stream[i]? = some sh := hi0
+      rw [hi1] at this
+      exact (Option.some.inj this).symm
+    subst hts
+    have hna : t ∉ available s'.tr := by rw [available_after_assign]; simp
+    have hks' : t ∈ s'.tr.known := by rw [ek]; exact ht'
+    by_cases ha : t.id ∈ s'.tr.assigned
+    · exact Or.inr (Or.inl (e ▸ h2.A2 _ ha))
+    · right; right
+      apply Classical.byContradiction
+      intro hno
+      apply hna
+      apply (mem_available _ t).mpr
+      refine ⟨hks', ha, ?_⟩
+      intro p hp
+      cases hc : knownId s'.tr.known p with
+      | false => rfl
+      | true => exact absurd ⟨p, hp, hc⟩ hno
+  · left; rw [ed]; exact hd
+
+theorem load_tainted_false (keep : Bool) (s : Sp) (h : (load keep s).tainted = false) : s.tainted = false := by
+  unfold Splits.load at h
+  cases hck : s.ck with
+  | none => rw [hck] at h; exact h
+  | some c =>
+    rw [hck] at h
+    simp only [Bool.or_eq_false_iff] at h
+    exact h.1.1
+
+/-- groups with a duplicate-free concatenation: an element lies in one group only -/
+theorem flatten_nodup_unique {α : Type} (L : List (List α)) (h : L.flatten.Nodup) (x : α) (r r' : Nat)
+    (g g' : List α) (hr : L[r]? = some g) (hr' : L[r']? = some g') (hx : x ∈ g) (hx' : x ∈ g') : r = r' := by
+  induction L generalizing r r' with
+  | nil => simp at hr
+  | cons a L ih =>
+    simp only [List.flatten_cons, List.nodup_append] at h
+    obtain ⟨_, hL, hdis⟩ := h
+    have inFl : ∀ (k : Nat) (b : List α), L[k]? = some b → x ∈ b → x ∈ L.flatten := by
+      intro k b hk hb
+      exact List.mem_flatten.mpr ⟨b, List.mem_iff_getElem?.mpr ⟨k, hk⟩, hb⟩
+    cases r with
+    | zero =>
+      cases r' with
+      | zero => rfl
+      | succ k' =>
+        simp only [List.getElem?_cons_zero, Option.some.injEq] at hr
+        simp only [List.getElem?_cons_succ] at hr'
+        subst hr
+        exact absurd rfl (hdis x hx x (inFl k' g' hr' hx'))
+    | succ k =>
+      cases r' with
+      | zero =>
+        simp only [List.getElem?_cons_zero, Option.some.injEq] at hr'
+        simp only [List.getElem?_cons_succ] at hr
+        subst hr'
+        exact absurd rfl (hdis x hx' x (inFl k g hr hx))
+      | succ k' =>
+        simp only [List.getElem?_cons_succ] at hr hr'
+        rw [ih hL k k' hr hr']
+
+theorem httpCursor_append_nonempty {α : Type} (pre : List (List α)) (d : List α) (hd : d ≠ []) :
+    httpCursor (pre ++ [d]) = d := by
+  unfold httpCursor
+  rw [List.foldl_append]
+  simp only [List.foldl_cons, List.foldl_nil]
+  have : d.isEmpty = false := by
+    cases d with
+    | nil => exact absurd rfl hd
+    | cons _ _ => rfl
+  simp [this]
+
+theorem httpCursor_append_empties {α : Type} (l post : List (List α)) (hp : ∀ e ∈ post, e = []) :
+    httpCursor (l ++ post) = httpCursor l := by
+  unfold httpCursor
+  rw [List.foldl_append]
+  generalize List.foldl (fun acc d => if d.isEmpty = true then acc else d) [] l = acc
+  induction post generalizing acc with
+  | nil => rfl
+  | cons e post ih =>
+    have he : e = [] := hp e List.mem_cons_self
+    subst he
+    simp only [List.foldl_cons, List.isEmpty_nil, if_true]
+    exact ih (fun e he => hp e (List.mem_cons_of_mem _ he)) acc
+
+/-! ## Tracked shards are unfinished (as long as readers only finish shards they were given) -/
+
+structure Tame (s : Sp) : Prop where
+  X : s.wild = false → ∀ sh ∈ s.tr.known, sh.id ∉ s.done
+  Y : s.wild = false → ∀ i ∈ s.done, i < s.tr.next
+  CX : s.wild = false → ∀ c, s.ck = some c → (∀ sh ∈ c.tr.known, sh.id ∉ c.done) ∧ ∀ i ∈ c.done, i < c.tr.next
+
+theorem Tame.discover (s : Sp) (hI : Inv s) (h : Tame s) : Tame (discover s) := by
+  refine ⟨?_, h.Y, h.CX⟩
+  intro hw sh hs
+  rcases mem_addSplits _ _ _ hs with h1 | h1
+  · exact h.X hw sh h1
+  · intro hd
+    have := (mem_drop_stream s hI _ sh h1).2
+    have := h.Y hw _ hd
+    omega
+
+theorem Tame.assignAvail (s : Sp) (h : Tame s) : Tame (assignAvail s).1 := by
+  unfold Splits.assignAvail
+  by_cases he : (available s.tr).isEmpty = true
+  · simp only [he, if_true]; exact h
+  · simp only [he]
+    refine ⟨h.X, ?_, h.CX⟩
+    intro hw i hi
+    exact Nat.lt_of_lt_of_le (h.Y hw i hi) (nextOf_ge _ _)
+
+theorem Tame.remove (s : Sp) (hI : Inv s) (h : Tame s) (ids : List Nat) : Tame (remove s ids) := by
+  have hsplit : (Splits.remove s ids).wild = false → s.wild = false ∧ ∀ i ∈ ids, i ∈ s.tr.assigned := by
+    intro hw
+    simp only [Splits.remove, Bool.or_eq_false_iff] at hw
+    refine ⟨hw.1, ?_⟩
+    intro i hi
+    have := List.any_eq_false.mp hw.2 i hi
+    simp only [Bool.not_eq_true', Bool.not_eq_false'] at this
+    exact List.contains_iff_mem.mp (by simpa using this)
+  refine ⟨?_, ?_, ?_⟩
+  · intro hw sh hs hd
+    obtain ⟨hw0, _⟩ := hsplit hw
+    have hm := List.mem_filter.mp hs
+    rcases List.mem_append.mp hd with h1 | h1
+    · exact h.X hw0 sh hm.1 h1
+    · have hc : ids.contains sh.id = true := List.contains_iff_mem.mpr h1
+      have h2 := hm.2
+      rw [hc] at h2
+      exact Bool.noConfusion h2
+  · intro hw i hi
+    obtain ⟨hw0, hass⟩ := hsplit hw
+    rcases List.mem_append.mp hi with h1 | h1
+    · exact h.Y hw0 i h1
+    · exact hI.L2 _ (hI.A2 _ (hass i h1))
+  · intro hw c hc
+    exact h.CX (hsplit hw).1 c hc
+
+theorem Tame.checkpoint (s : Sp) (h : Tame s) (st : List (Nat × Nat)) : Tame (checkpoint s st) := by
+  refine ⟨h.X, h.Y, ?_⟩
+  intro hw c hc
+  simp only [Splits.checkpoint, Option.some.injEq] at hc
+  subst hc
+  exact ⟨h.X hw, h.Y hw⟩
+
+theorem Tame.load (keep : Bool) (s : Sp) (h : Tame s) : Tame (load keep s) := by
+  unfold Splits.load
+  cases hck : s.ck with
+  | none =>
+    refine ⟨?_, ?_, ?_⟩
+    · intro _ sh hs; simp at hs
+    · intro _ i hi; simp at hi
+    · intro hw c hc; simp at hc
+  | some c =>
+    refine ⟨?_, ?_, ?_⟩
+    · intro hw sh hs
+      have hw0 : s.wild = false := hw
+      rcases mem_addSplits _ _ _ hs with h1 | h1
+      · simp at h1
+      · exact (h.CX hw0 c hck).1 sh (List.mem_filter.mp h1).1
+    · intro hw i hi
+      have hw0 : s.wild = false := hw
+      exact (h.CX hw0 c hck).2 i hi
+    · intro hw c' hc'
+      have hw0 : s.wild = false := hw
+      exact h.CX hw0 c' (by rw [hck]; exact hc')
+
+theorem Tame.envSplit (s : Sp) (h : Tame s) (i a : Nat) : Tame ((envSplit s i a).getD s) := by
+  unfold Splits.envSplit
+  cases hi : s.stream[i]? with
+  | none => exact h
+  | some sh =>
+    simp only
+    split
+    · exact h
+    · exact ⟨h.X, h.Y, h.CX⟩
+
+theorem Tame.envMerge (s : Sp) (h : Tame s) (i j : Nat) : Tame ((envMerge s i j).getD s) := by
+  unfold Splits.envMerge
+  cases hi : s.stream[i]? with
+  | none => exact h
+  | some a =>
+    cases hj : s.stream[j]? with
+    | none => exact h
+    | some b => exact ⟨h.X, h.Y, h.CX⟩
+
+theorem Tame.step (keep : Bool) (s : Sp) (hI : Inv s) (h : Tame s) (a : Act) : Tame (step keep s a).1 := by
+  cases a with
+  | start => exact Tame.assignAvail _ (Tame.discover _ (Inv.load keep s hI) (Tame.load keep s h))
+  | tick => exact Tame.assignAvail _ (Tame.discover s hI h)
+  | finish ids => exact Tame.assignAvail _ (Tame.remove s hI h ids)
+  | ckpt st => exact Tame.checkpoint s h st
+  | split i a => exact Tame.envSplit s h i a
+  | merge i j => exact Tame.envMerge s h i j
+
+theorem Tame.run (keep : Bool) (as : List Act) (s : Sp) (hI : Inv s) (h : Tame s) : Tame (run keep s as) := by
+  induction as generalizing s with
+  | nil => exact h
+  | cons a as ih => rw [run_cons]; exact ih _ (Inv.step keep s hI a) (Tame.step keep s hI h a)
+
+theorem Tame.init (shards runners : Nat) : Tame (initSp shards runners) := by
+  refine ⟨?_, ?_, ?_⟩
+  · intro _ sh hs; simp [initSp] at hs
+  · intro _ i hi; simp [initSp] at hi
+  · intro _ c hc; simp [initSp] at hc
+
 end Rxn.Splits
